@@ -5,6 +5,8 @@ wrapped as GenJAX Distribution objects. All distributions are built
 using TensorFlow Probability as the backend.
 """
 
+from functools import partial
+
 import jax.numpy as jnp
 
 from genjax._compat import ensure_jax_tfp_compat
@@ -227,7 +229,10 @@ References:
 """
 
 exponential = tfp_distribution(
-    tfd.Exponential,
+    # TFP's default density is the analytic expression log(rate) - rate * x for
+    # every real x, i.e. positive mass on x < 0; gradient-based kernels would
+    # accept such states. The density is 0 (log density -inf) outside [0, inf).
+    partial(tfd.Exponential, force_probs_to_zero_outside_support=True),
     name="Exponential",
 )
 """Exponential distribution for positive continuous values.
